@@ -7,6 +7,7 @@
 #include <limits.h>
 #include "sqfs/error.h"
 #include "sqfs/dir_entry.h"
+#include "sqfs/block.h"
 #include "tar/tar.h"
 #include "tar/format.h"
 #include "util/parse.h"
@@ -56,6 +57,8 @@ int main(void)
 	/* split_line verdicts, parse_int errors */
 	CZ(SPLIT_LINE_OK); CZ(SPLIT_LINE_ALLOC); CZ(SPLIT_LINE_UNMATCHED_QUOTE); CZ(SPLIT_LINE_ESCAPE);
 	CZ(SQFS_ERROR_CORRUPTED); CZ(SQFS_ERROR_OVERFLOW); CZ(SQFS_ERROR_OUT_OF_BOUNDS);
+	/* block flags set by the sort file */
+	C(SQFS_BLK_DONT_COMPRESS); C(SQFS_BLK_DONT_FRAGMENT); C(SQFS_BLK_DONT_DEDUPLICATE); C(SQFS_BLK_IGNORE_SPARSE);
 	printf("Definition c_LONG_MAX : N := %llu.\n", (unsigned long long)LONG_MAX);
 	printf("Definition c_sizeof_size_t : N := %llu.\n", (unsigned long long)sizeof(size_t));
 	return 0;
